@@ -266,9 +266,10 @@ def sharded_rank_fn(spec, tmpdir=None):
                 rec['grads'].append([(m.weight.grad.clone(), None if m.bias is None else m.bias.grad.clone()) for m in mods])
                 rec['steps'].append(p.steps)
                 fac = {}
-                for n, layer in p._layers.values():
-                    if rank == a.inv_worker(n, 'A'):
-                        fac[n] = (layer.a_factor.clone(), layer.g_factor.clone())
+                if spec.get('readback_steps') is None or step_no in spec['readback_steps']:
+                    for n, layer in p._layers.values():
+                        if rank == a.inv_worker(n, 'A'):
+                            fac[n] = (layer.a_factor.clone(), layer.g_factor.clone())   # reading waits on the factor futures
                 rec['factors'].append(fac)
                 if spec.get('sgd_lr'):
                     with torch.no_grad():
